@@ -197,7 +197,16 @@ func concurrentAdmission(r *runner.Run, t *testing.T) {
 				{Name: "p2", Steps: []qsched.Step{{Op: qmodel.Op{Kind: "enq", Envs: []qmodel.EnvSpec{env("b")}}}}},
 				{Name: "w", Steps: []qsched.Step{{Op: qmodel.Op{Kind: "ack", Lease: "x#1"}}}},
 			}
-			for _, one := range []qsched.Scenario{sc, freed} {
+			// the same with batch forms: a one-item batch against a single enqueue, and two one-item batches
+			mixed, batches := freed, freed
+			mixed.Name = fmt.Sprintf("admission-after-refusal-enq-vs-batch-%s-drop%v", backend, drop)
+			mixed.Threads = []qsched.Thread{freed.Threads[0],
+				{Name: "p2", Steps: []qsched.Step{{Op: qmodel.Op{Kind: "enqb", Envs: []qmodel.EnvSpec{env("b")}}}}}, freed.Threads[2]}
+			batches.Name = fmt.Sprintf("admission-after-refusal-batch-vs-batch-%s-drop%v", backend, drop)
+			batches.Threads = []qsched.Thread{
+				{Name: "p1", Steps: []qsched.Step{{Op: qmodel.Op{Kind: "enqb", Envs: []qmodel.EnvSpec{env("a")}}}}},
+				{Name: "p2", Steps: []qsched.Step{{Op: qmodel.Op{Kind: "enqb", Envs: []qmodel.EnvSpec{env("b")}}}}}, freed.Threads[2]}
+			for _, one := range []qsched.Scenario{sc, freed, mixed, batches} {
 				body, rec := qsched.Body(one)
 				oracle := func(x *sched.Exec) {
 					if why := lin.Check(rec.Init, rec.Events); why != "" {
@@ -314,6 +323,122 @@ func dsl(worker int, c rlCfg) string {
 	return b.String()
 }
 
+// rateLimiterAcrossReload: the limit in force is the one of the configuration in force. For every ordered pair of
+// limiter configurations: boot the first, warm its limiters, reload (production path) to the second, let ten seconds
+// pass, then every arrival sequence: every window of admitted requests that lies after the reload obeys the SECOND
+// configuration's burst + rps x span (whether the reload kept or replaced the limiter object).
+func rateLimiterAcrossReload(r *runner.Run, cfgs []rlCfg, gaps []time.Duration) {
+	length := runner.Pick(r, 5, 6)
+	nseq := 1
+	for i := 0; i < length-1; i++ {
+		nseq *= len(gaps)
+	}
+	type pair struct{ from, to rlCfg }
+	var pairs []pair
+	for _, a := range cfgs {
+		for _, b := range cfgs {
+			if a.name != b.name {
+				pairs = append(pairs, pair{a, b})
+			}
+		}
+	}
+	workers := runtime.NumCPU()
+	var wg sync.WaitGroup
+	var mu sync.Mutex
+	type vio struct{ key, msg string }
+	var vios []vio
+	var evals int64
+	for w := 0; w < workers; w++ {
+		wg.Add(1)
+		go func(w int) {
+			defer wg.Done()
+			var local int64
+			for pi := w; pi < len(pairs); pi += workers {
+				p := pairs[pi]
+				var clock time.Time
+				now := func() time.Time { return clock }
+				for sq := 0; sq < nseq; sq++ {
+					clock = time.Date(2026, 1, 1, 0, 0, 0, 0, time.UTC)
+					st := queue.NewMemoryStore()
+					a, err := app.VerifBoot(app.VerifBootOptions{Dir: fmt.Sprintf("%s/rlr-%d", runner.Scratch(), w), ConfigText: dsl(100+w, p.from), Store: st, Now: now})
+					if err != nil {
+						mu.Lock()
+						vios = append(vios, vio{"INFRA", "boot: " + err.Error()})
+						mu.Unlock()
+						return
+					}
+					post(a.Ingress, "/p", []byte("x"), "")
+					post(a.Ingress, "/p", []byte("x"), "")
+					os.WriteFile(a.ConfigPath, []byte(dsl(100+w, p.to)), 0o644)
+					if !a.Reload("verif") {
+						mu.Lock()
+						vios = append(vios, vio{"INFRA", fmt.Sprintf("reload %s -> %s failed", p.from.name, p.to.name)})
+						mu.Unlock()
+						a.Shutdown()
+						return
+					}
+					t0 := clock.Add(10 * sec)
+					times := make([]time.Duration, length)
+					x := sq
+					for i := 1; i < length; i++ {
+						times[i] = times[i-1] + gaps[x%len(gaps)]
+						x /= len(gaps)
+					}
+					admitted := make([]bool, length)
+					var pat strings.Builder
+					bad := ""
+					for i := 0; i < length; i++ {
+						clock = t0.Add(times[i])
+						switch code := post(a.Ingress, "/p", []byte("x"), ""); code {
+						case 202:
+							admitted[i] = true
+							pat.WriteByte('A')
+						case 429:
+							pat.WriteByte('-')
+						default:
+							bad = fmt.Sprintf("request %d answered %d (want 202 or 429)", i, code)
+						}
+					}
+					a.Shutdown()
+					local++
+					for i := 0; i < length && bad == ""; i++ {
+						cnt := 0
+						for j := i; j < length; j++ {
+							if admitted[j] {
+								cnt++
+							}
+							span := (times[j] - times[i]).Seconds()
+							if float64(cnt) > float64(p.to.effBurst)+p.to.effRPS*span {
+								bad = fmt.Sprintf("window [%d,%d] (%.2fs) after the reload admitted %d > burst %d + rps %g x span of the configuration in force", i, j, span, cnt, p.to.effBurst, p.to.effRPS)
+								break
+							}
+						}
+					}
+					if bad != "" {
+						mu.Lock()
+						vios = append(vios, vio{"ratelimit-after-reload:" + p.from.name + "->" + p.to.name, fmt.Sprintf("booted with %s, reloaded to %s, arrival offsets %v after the reload, pattern %s: %s", p.from.name, p.to.name, times, pat.String(), bad)})
+						mu.Unlock()
+					}
+				}
+			}
+			mu.Lock()
+			evals += local
+			mu.Unlock()
+		}(w)
+	}
+	wg.Wait()
+	for _, v := range vios {
+		if v.key == "INFRA" {
+			r.Infra("%s", v.msg)
+			continue
+		}
+		r.Violation(v.key, v.msg, map[string]any{"engine": "enum", "part": "ratelimit-reload"}, nil)
+	}
+	r.Add("ratelimit_reload_sequences", evals)
+	r.Add("states", evals)
+	r.Add("transitions", evals*int64(length))
+}
+
 func rateLimiter(r *runner.Run) {
 	cfgs := []rlCfg{
 		{name: "global(1,1)", globalRPS: 1, globalBurst: 1, effRPS: 1, effBurst: 1},
@@ -323,6 +448,7 @@ func rateLimiter(r *runner.Run) {
 		{name: "route(0.25,1)", routeRPS: 0.25, routeBurst: 1, effRPS: 0.25, effBurst: 1},
 	}
 	gaps := []time.Duration{0, 250 * time.Millisecond, 500 * time.Millisecond, sec, 2 * sec}
+	rateLimiterAcrossReload(r, cfgs, gaps)
 	length := runner.Pick(r, 6, 8)
 	nseq := 1
 	for i := 0; i < length-1; i++ {
